@@ -570,8 +570,11 @@ let ka_main unfixed =
           let silent = int_of_string silent and period = int_of_string period and horizon = int_of_string horizon in
           let kan = n_of_int ka in
           let s = ref (fst (stp kan k_init (Connect (n_of_int 0)))) in
+          (* traffic full1 / full2: the inflight window is full for the whole run (nothing the keep-alive
+             logic reads); coll: a publish is parked on a packet id collision right after the connection *)
+          if traffic = "coll" then s := fst (stp kan !s (Parked (n_of_int 0)));
           let pings = ref [] and resps = ref [] and due = ref [] and k = ref 0 in
-          let next_tr = ref (if traffic = "none" then max_int else period) in
+          let next_tr = ref (if traffic = "up" || traffic = "down" then period else max_int) in
           let fin = ref None in
           while !fin = None do
             let d = match k_deadline !s with Some d -> int_of_n d | None -> max_int in
